@@ -1,5 +1,7 @@
 /- C11 invariants, part 12: who holds the write lock — locking, registering, dropping, allocating -/
 import SemaModel.C11.Inv11
+set_option linter.unusedSimpArgs false
+set_option linter.unusedVariables false
 namespace Sema.C11
 
 def allocPC : PC → Bool
